@@ -271,10 +271,19 @@ type checker struct {
 	e   *env
 	gen string
 	bad bool // an unexplained violation was recorded (known-finding hits do not stop the case)
+	// witf, when set, replaces the scenario witness (multi-block sequences)
+	witf func() map[string]any
+}
+
+func (k *checker) baseWitness() map[string]any {
+	if k.witf != nil {
+		return k.witf()
+	}
+	return k.s.witness()
 }
 
 func (k *checker) viol(class, msg string, extra map[string]any) {
-	w := k.s.witness()
+	w := k.baseWitness()
 	w["generation"] = k.gen
 	k.bad = true
 	for a, b := range extra {
@@ -369,7 +378,7 @@ func (k *checker) paged(path string, sm *modules.StateModule, prefix []byte, pre
 	if strings.Join(got, ",") != strings.Join(want, ",") && strings.Join(got, ",") == strings.Join(dev, ",") {
 		c.Count("known_zero_nibble_prefix_enumerations", 1)
 		c.Known(knownID, fmt.Sprintf("[%s] GetKeysPaged prefix=%s qty=%d enumerated %v, want %v: the trailing zero nibble of the prefix was ignored (%s)", path, hx(prefix), q, got, want, diff(got, want)),
-			map[string]any{"prefix": hx(prefix), "qty": q, "got": got, "want": want, "entries": k.s.witness()["entries"]})
+			map[string]any{"prefix": hx(prefix), "qty": q, "got": got, "want": want, "entries": k.baseWitness()["entries"]})
 		return true
 	}
 	if len(got) != len(want) || strings.Join(got, ",") != strings.Join(want, ",") {
@@ -747,6 +756,17 @@ func TestVerifC38(t *testing.T) {
 	r.Fixed("fixed", len(fx), func(c *vcommon.Case) {
 		runScenario(c, fx[c.Idx])
 		c.Sample(map[string]any{"fixed": c.Idx, "keys": hexKeys(fx[c.Idx].Keys), "prefixes": hexKeys(fx[c.Idx].Prefixes), "failed": c.Failed()})
+	})
+	r.Floor("chain_head_relisted_same_prefix_across_best_block_change", 600)
+	r.Floor("chain_head_relisted_same_prefix_with_changed_result", 300)
+	r.Floor("chain_explicit_listings_of_non_head_blocks", 600)
+	r.Floor("chain_older_block_relisted_after_newer", 200)
+	r.Floor("chain_reorgs_to_fork", 40)
+	r.Floor("chain_blocks_imported", 500)
+	fc := fixedChains()
+	r.Fixed("fixedchain", len(fc), func(c *vcommon.Case) { runChain(c, fc[c.Idx]) })
+	r.Cases("chain", r.Scale(160), func(c *vcommon.Case) {
+		runChain(c, genChain(c.R))
 	})
 	r.Cases("rand", r.Scale(400), func(c *vcommon.Case) {
 		s := genScenario(c.R)
